@@ -23,9 +23,9 @@ MANIFEST = {
             'child and the completion logic of the task runs at most once (duplicate delivery is a no-op); every '
             'descendant records the root execution and the root namespace; get_workflow_environment_dict of any '
             'descendant is the root env; splitInput is a partition and the child params are characterised key by key '
-            '(an undeclared key OVERWRITES a reserved parameter: _full_fails + _partial); resolve_workflow_definition '
-            'looks up wb.child then child whenever the parent spec name has no dot (always for validated workbooks, '
-            'by the regenerated name pattern), counter-witness otherwise. Correspondence: real '
+            '(after fix f99833f3: for every input either the schedule is refused with the declared InputException or the four '
+            'link parameters are the engine\'s; the rpc keyword clash remains as _full_fails + _partial); resolve_workflow_definition '
+            'looks up wb.child then child for EVERY workbook / workflow name (after fix 52ef6286). Correspondence: real '
             'resolve_workflow_definition and WorkflowAction.schedule vs the model on generated names/inputs; real '
             'engine runs (nesting <=3, plain and with-items callers, by name / workbook-relative / expression, both '
             'start_subworkflows_via_rpc settings, namespaces, root env, child success/error/cancel, stop of a child, '
